@@ -380,7 +380,7 @@ ATOM_FEATURES = ["plain", "alt-lo-hi", "alt-hi-lo", "alt-tie", "alt3-lo-hi-mid",
                  "clash-next-residue"]
 NULL_FEATURES = ["occ-absent", "occ-absent-repeated", "occ-absent-clash"]
 LAYOUTS = ["one", "one-num3", "two-shared-far", "two-shared-near", "two-shared-occ", "two-disjoint-far",
-           "two-disjoint-near", "three-shared", "two-renumbered"]
+           "two-disjoint-near", "three-shared", "two-renumbered", "three-unordered", "two-descending"]
 
 
 def _add(p, q):
@@ -521,6 +521,10 @@ def build_table(rng, layout, feats, *, chains=1, icn="?", ocn="?"):
         return _shift(base, 2, (0, 0, 0)) + _shift(base, 5, _FAR)
     if layout == "three-shared":
         return base + _shift(base, 2, _FAR) + _shift(base, 3, (-_FAR[0], _FAR[1], -_FAR[2]))
+    if layout == "three-unordered":     # model numbers that do not ascend in file order: 3, 1, 2
+        return _shift(base, 3, (0, 0, 0)) + _shift(base, 1, _FAR) + _shift(base, 2, (-_FAR[0], _FAR[1], -_FAR[2]))
+    if layout == "two-descending":      # 2, 1
+        return _shift(base, 2, (0, 0, 0)) + _shift(base, 1, _FAR)
     # disjoint identities: the second model lives in another chain
     def disjoint(lines):
         # every chain of the first model gets its own new name (two chains must not merge into one)
